@@ -75,3 +75,36 @@ pub mod t {
     mal_harness!(m_vec_u64_bulk, Vec<u64>, 24, 4, u64::MAX);
     mal_harness!(m_vec_u8_bulk, Vec<u8>, 11, 4, u64::MAX);
 }
+
+/// Trait-object schemas (`Schema::Trait`, ABI definitions exchanged between peers) carry the trait
+/// name as `name[+Sync][+Send]`; the bytes are untrusted. Structure bytes concrete (R5), the
+/// suffix character symbolic.
+pub mod tr {
+    use super::*;
+    use savefile::AbiTraitDefinition;
+    macro_rules! trait_name_harness {
+        ($name:ident, $len:expr, $bytes:expr, $symidx:expr) => {
+            kproof!($name, 12, {
+                let mut bytes = [0u8; 8 + $len + 8];
+                bytes[0] = $len as u8;
+                let nb: [u8; $len] = $bytes;
+                bytes[8..8 + $len].copy_from_slice(&nb);
+                let c: u8 = anyv::<u8>();
+                assume(c < 128);
+                bytes[8 + $symidx] = c;
+                match de::<AbiTraitDefinition>(&bytes, 0) {
+                    Ok((v, _left)) => {
+                        kani::cover!(true, "Ok returned");
+                        std::mem::forget(v);
+                    }
+                    Err(e) => std::mem::forget(e),
+                }
+                kani::cover!(true, "reached end");
+            });
+        };
+    }
+    // "a+?" : one-character suffix, every ASCII value
+    trait_name_harness!(m_traitdef_suffix1, 3, [b'a', b'+', b'b'], 2);
+    // "a?b" : the separator position itself symbolic
+    trait_name_harness!(m_traitdef_sep, 3, [b'a', b'+', b'b'], 1);
+}
